@@ -106,3 +106,124 @@ def size_facts(lins):
             out.append(Lin.const(1) - Lin.atom(a))
             out.append(Lin.atom(a) - 4)
     return out
+
+
+def scan_rule(R, rule, fn, field, start=('c', 0), nth=0, eng=None):
+    """Table-scan range of one loop: the index starts at `start`, every iteration is guarded by index < t-><field>,
+    steps by one, and the loop is left normally only with t-><field> <= index.  (field: 'entries' | 'areas'; nth: which
+    loop over that field inside fn, in source order.)  A scan that starts late, stops early, runs one too far or not at
+    all skips registers/areas the operation has to look at, or reads beyond the table."""
+    from ..sym import fmt, linearize as L
+    ck = R.ck
+    ps = R.paths(fn, rule, eng)
+    if ps is None:
+        return
+    count = ('f', T, field)
+
+    def is_count(x):
+        x = strip_cast(x)
+        return x == count or (x[0] == 'h' and str(x[1]) == 'clobbered:t->%s' % field)
+
+    def count_in(p, h):
+        for c in p.cond_terms():
+            if c[0] == 'cmp':
+                a, b = strip_cast(c[2]), strip_cast(c[3])
+                if a == h and is_count(b):
+                    return b
+                if b == h and is_count(a):
+                    return a
+        return count
+    key = '%s:scan:%s%s' % (fn, field, '#%d' % nth if nth else '')
+    # loops of fn over this field, in source order
+    loops = {}
+    for p in ps:
+        for node, lmap in p.loops:
+            for k, (h, pre) in lmap.items():
+                if any(c[0] == 'cmp' and ((strip_cast(c[2]) == h and is_count(c[3])) or (strip_cast(c[3]) == h and is_count(c[2]))) for c in p.cond_terms()):
+                    loops.setdefault(id(node), (cast.node_line(node), node, k))
+    order = sorted(loops.values(), key=lambda x: x[0])
+    if nth >= len(order):
+        return ck.broken(rule, key, R.where(fn), 'loop over t->%s not found (%d such loops)' % (field, len(order)))
+    line, node, k = order[nth]
+    bad = None
+    nit = nexit = 0
+    for p in ps:
+        ent = [lm for nd, lm in p.loops if nd is node]
+        if not ent or k not in ent[-1]:
+            continue
+        h, pre = ent[-1][k]
+        cnt = count_in(p, h)
+        if pre is None or strip_cast(pre) != start:
+            bad = bad or 'the scan starts at index %s, expected %s' % (fmt(pre) if pre else '?', fmt(start))
+        is_last = p.loops[-1][0] is node
+        if p.end == 'loopback' and is_last:
+            nit += 1
+            if not (eng or R.eng).entails(p, L(h) + 1 - L(cnt)):
+                bad = bad or ('an iteration runs under {%s}: index < t->%s is not established (the scan reads beyond the table or never runs)'
+                              % ('; '.join(fmt(c) for c in p.cond_terms() if sym.contains(c, h))[:200], field))
+            d = L(p.mem.get(k, h)) - L(h)
+            if not (d.is_const() and d.c == 1):
+                bad = bad or 'the index moves by %s per iteration, expected +1' % d
+        else:
+            e_ = eng or R.eng
+            inside = e_.entails(p, L(h) + 1 - L(cnt))
+            left = e_.entails(p, L(cnt) - L(h))
+            if left:
+                nexit += 1
+            if not inside and not left:
+                bad = bad or ('a path continues after the scan under {%s}: neither index < t->%s (inside) nor t->%s <= index (finished) is established'
+                              % ('; '.join(fmt(c) for c in p.cond_terms() if sym.contains(c, h))[:200], field, field))
+    if bad is None and nit == 0:
+        bad = 'no iteration of the scan found'
+    ck.verdict(bad is None, rule, key, '%s:%d' % (UNIT, line),
+               'index from %s while index < t->%s, step 1; left only when the whole table has been looked at or from inside an iteration' % (fmt(start), field)
+               if bad is None else bad)
+
+
+def for_headers(R, rule, fn, expected):
+    """For functions whose path set is too large to carry every loop (register_init): the headers of its `for`
+    loops over the table, in source order, against the confirmed table [(start, field)].  Only the three header
+    parts are matched (init constant, `index < t->field`, `++index`), resolved through the AST."""
+    ck = R.ck
+    f = R.u.fn(fn)
+    if f is None:
+        return ck.broken(rule, fn + ':scans', '', 'function missing')
+    got = []
+    for n in cast.walk(R.u.body(fn)):
+        if cast.kind(n) != 'ForStmt':
+            continue
+        parts = n.get('inner', [])
+        if len(parts) < 5:
+            continue
+        init, cond, inc = parts[0], parts[2], parts[3]
+        var = None
+        startv = None
+        if cast.kind(init) == 'DeclStmt':
+            d = cast.inner(init)[0]
+            var = d.get('id')
+            startv = R.u.const_value(d['inner'][0]) if d.get('inner') else None
+        c = cast.strip_all_casts(cond) if cond else None
+        field = op = None
+        if c is not None and cast.kind(c) == 'BinaryOperator':
+            op = c.get('opcode')
+            lhs, rhs = cast.strip_all_casts(c['inner'][0]), cast.strip_all_casts(c['inner'][1])
+            if cast.kind(lhs) == 'DeclRefExpr' and lhs['referencedDecl']['id'] == var and cast.kind(rhs) == 'MemberExpr':
+                field = rhs.get('name')
+        i_ = cast.strip_all_casts(inc) if inc else None
+        step = None
+        if i_ is not None and cast.kind(i_) == 'UnaryOperator' and i_.get('opcode') in ('++', '--'):
+            tgt = cast.strip_all_casts(i_['inner'][0])
+            if cast.kind(tgt) == 'DeclRefExpr' and tgt['referencedDecl']['id'] == var:
+                step = 1 if i_['opcode'] == '++' else -1
+        got.append((startv, op, field, step, cast.node_line(n)))
+    bad = None
+    if len(got) != len(expected):
+        return ck.broken(rule, fn + ':scans', R.where(fn), '%d for-loops found, the confirmed table has %d' % (len(got), len(expected)))
+    for (startv, op, field, step, line), (es, ef) in zip(got, expected):
+        if field != ef:
+            return ck.broken(rule, fn + ':scans', '%s:%d' % (UNIT, line), 'loop bound is %s, the confirmed table says t->%s' % (field, ef))
+        if startv != es or op != '<' or step != 1:
+            bad = bad or ('the scan over t->%s at line %d runs from %s while index %s t->%s with step %s; it has to run from %d while index < t->%s with step +1'
+                          % (ef, line, startv, op, ef, step, es, ef))
+    ck.verdict(bad is None, rule, fn + ':scans', R.where(fn),
+               'all %d table scans of %s have the confirmed range' % (len(expected), fn) if bad is None else bad)
